@@ -12,12 +12,19 @@ RULE = ('TCPCL: C01/C09 plan space with extra user calls (queue queries, idle qu
         'UDPCL: engine E6 runs with the same marshalling check and queue model. Non-trivial: at least one query answered while '
         'a transfer was queued, in progress or awaiting pop; distinct = distinct event-history digests.')
 COMPONENTS = tc.COMPONENTS
-PROBES = ('probe.query_during_transfer', 'probe.idle_true', 'probe.idle_false', 'probe.double_pop', 'wire.SESS_TERM')
+PROBES = ('probe.query_during_transfer', 'probe.idle_true', 'probe.idle_false', 'probe.double_pop', 'wire.SESS_TERM', 'engine.tcpcl', 'engine.udpcl')
 ASSUMPTIONS = ['as C01', 'marshalling model agrees with dbus-python 1.3.2 on the argument shapes the agents produce (selftest fidelity)']
 CHUNK = 10
 
 
 def gen(ch, tier):
+    if ch.coin('udpcl', 1, 4):
+        from props import C13
+        plan = C13.gen(ch, tier)
+        plan['scenario'] = 'udpcl_dbus'
+        plan['queries'] = sorted(([1000 * ch.pick('qt', 5000), ch.choice('qside', ('U1', 'U2')), ch.choice('qop', ('rxq', 'pop', 'popdup'))]
+                                  for _ in range(2 + ch.pick('nq', 8))), key=lambda item: item[0])
+        return plan
     prof = dict(min_one=True, backpressure=True, max_bundles=4, liveness=False, max_queries=10,
                 big=32768, max_segments=200, allow_zero=ch.coin('allow0', 1, 8))
     mode = ch.weighted('mode', (5, 3, 1))
@@ -38,10 +45,100 @@ def gen(ch, tier):
 
 
 def execute(plan, sched, verbose=False):
+    if plan.get('scenario') == 'udpcl_dbus':
+        return _execute_udpcl(plan, sched, verbose)
     return tcpcl_pair.run_plan(plan, sched, verbose)
 
 
+class _URun:
+    pass
+
+
+def _execute_udpcl(plan, sched, verbose):
+    from scenarios import dgram_pair
+    from props import C13
+    har = dgram_pair.DgramHarness(plan, sched, verbose)
+    run = _URun()
+    run.har = har
+    run.wld = har.wld
+    run.plan = plan
+    run.viols = []
+    run.stats = {}
+    wld = har.wld
+
+    def do_send(item):
+        dst = 'U2' if item['src'] == 'U1' else 'U1'
+        har.user_send(item['src'], C13.bundle_bytes(item['tag'], item['plen']), {'address': dgram_pair.UDP_ADDR[dst], 'port': 4556})
+
+    def do_query(item):
+        (_when, side, qop) = item
+        ret = har.call(side, 'recv_bundle_get_queue')
+        if qop != 'rxq' and isinstance(ret, list) and ret:
+            bid = ret[0]
+            har.call(side, 'recv_bundle_pop_data', bid)
+            if qop == 'popdup':
+                har.call(side, 'recv_bundle_pop_data', bid)
+
+    for item in plan['sends']:
+        wld.at(item['t'], do_send, item)
+    for item in plan['queries']:
+        wld.at(item[0], do_query, item)
+    har.run_until(5 * dgram_pair.SEC)
+    har.settle()
+    for side in ('U1', 'U2'):
+        har.call(side, 'recv_bundle_get_queue')
+    _judge_udpcl(run, har)
+    return run
+
+
+def _judge_udpcl(run, har):
+    wld = har.wld
+    for evt in wld.hist:
+        if evt[3] == 'dbus-marshal-error':
+            run.viols.append(('dbus-type', 'udpcl-%s:%s' % (evt[4], evt[6]), 'UDPCL %s %s does not conform to signature %r: args %r (%s)' % (evt[4], evt[6], evt[7], evt[8], evt[9])))
+            return
+    for side in ('U1', 'U2'):
+        announced = [(evt[0], evt[7][0], evt[7][1]) for evt in wld.hist if evt[3] == 'dbus-signal' and evt[2] == side and evt[5] == 'recv_bundle_finished']
+        popped = {}
+        for call in har.calls:
+            (seq, _when, cside, member, args, ret) = call
+            if cside != side:
+                continue
+            err = isinstance(ret, tuple) and len(ret) == 3 and ret[0] == 'error'
+            if member == 'recv_bundle_get_queue' and not err:
+                want = set(bid for (aseq, bid, _len) in announced if aseq < seq) - set(bid for (bid, pseq) in popped.items() if pseq < seq)
+                got = set(str(item) for item in ret)
+                run.stats['probe.query_during_transfer'] = run.stats.get('probe.query_during_transfer', 0) + (1 if got else 0)
+                if got != want:
+                    run.viols.append(('rx-queue', 'udpcl-mismatch', 'UDPCL %s receive queue lists %s, model says %s' % (side, sorted(got), sorted(want))))
+                    return
+            elif member == 'recv_bundle_pop_data':
+                bid = str(args[0])
+                known = [length for (aseq, abid, length) in announced if abid == bid and aseq < seq]
+                if err:
+                    if known and bid not in popped:
+                        run.viols.append(('pop', 'udpcl-pop-failed', 'UDPCL %s could not pop announced transfer %s' % (side, bid)))
+                        return
+                    if bid in popped:
+                        run.stats['probe.double_pop'] = 1
+                else:
+                    if bid in popped:
+                        run.viols.append(('pop', 'udpcl-popped-twice', 'UDPCL %s popped transfer %s twice' % (side, bid)))
+                        return
+                    if known and len(ret) != known[0]:
+                        run.viols.append(('pop', 'udpcl-length', 'UDPCL %s popped %d octets, announced %d' % (side, len(ret), known[0])))
+                        return
+                    popped[bid] = seq
+        for tid in set(evt[7][0] for evt in wld.hist if evt[3] == 'dbus-signal' and evt[2] == side and evt[5] == 'send_bundle_started'):
+            count = len([1 for evt in wld.hist if evt[3] == 'dbus-signal' and evt[2] == side and evt[5] == 'send_bundle_finished' and evt[7][0] == tid])
+            if count > 1:
+                run.viols.append(('finished-once', 'udpcl-send-finished-twice', 'UDPCL %s emitted send_bundle_finished %d times for %s' % (side, count, tid)))
+                return
+
+
 def judge(run):
+    if isinstance(run, _URun):
+        return run.viols
     obs = tc.Obs(run)
     run.obs = obs
     viols = tc.check_dbus_types(obs)
@@ -50,8 +147,14 @@ def judge(run):
 
 
 def describe(run):
+    if isinstance(run, _URun):
+        counters = dict(run.wld.counters)
+        counters.update(run.stats)
+        counters['engine.udpcl'] = 1
+        return dict(nontrivial=bool(run.stats.get('probe.query_during_transfer')), key=run.wld.digest(), sim_us=run.wld.now, steps=run.wld.steps,
+                    capped=run.wld.capped, counters=counters, sample=dict(engine='udpcl', mtu=run.plan['mtu'], queries=run.plan['queries'][:8]))
     obs = getattr(run, 'obs', None) or tc.Obs(run)
-    extra = {}
+    extra = {'engine.tcpcl': 1}
     for call in run.calls:
         if call[3] == 'is_sess_idle' and not isinstance(call[5], tuple):
             extra['probe.idle_true' if call[5] else 'probe.idle_false'] = 1
